@@ -24,9 +24,11 @@ Section Decat.
   Variable ix : indexer.
   Variables unicode utf16 : bool.
   Variable h : hay.
+  Variable okp : nat -> Prop.
   Notation IR := (ir_results ix unicode utf16 h).
-  Notation ref := (ref ix unicode utf16 h).
-  Notation PRel := (PRel ix unicode utf16 h).
+  Notation ref := (ref ix unicode utf16 h okp).
+  Notation al := (al ix unicode utf16 h okp).
+  Notation PRel := (PRel ix unicode utf16 h okp).
 
   Lemma flatten_fle f fwd : forall l,
     fle (cat_results (fun c => IR f c fwd) l) (cat_results (fun c => IR f c fwd) (flat_map spl l)).
@@ -45,37 +47,45 @@ Section Decat.
   Lemma ref_flatten fwd l : ref fwd (NCat l) (NCat (flat_map spl l)).
   Proof.
     split; [|apply rstep_nol1; reflexivity].
-    apply (rres_fle ix unicode utf16 h fwd _ _ 0%nat). intros [|f] x r E; [discriminate|]. rewrite Nat.add_0_r. rewrite ir_cat_eq in *.
+    apply (rres_fle ix unicode utf16 h okp fwd _ _ 0%nat). intros [|f] x r E; [discriminate|]. rewrite Nat.add_0_r. rewrite ir_cat_eq in *.
     apply flatten_fle. exact E.
   Qed.
 
   Lemma ref_cat_nil fwd : ref fwd (NCat []) NEmpty.
   Proof.
     split; [|apply rstep_nol1; reflexivity].
-    apply (rres_fle ix unicode utf16 h fwd _ _ 0%nat). intros [|f] x r E; [discriminate|]. rewrite Nat.add_0_r. rewrite ir_cat_eq in E.
+    apply (rres_fle ix unicode utf16 h okp fwd _ _ 0%nat). intros [|f] x r E; [discriminate|]. rewrite Nat.add_0_r. rewrite ir_cat_eq in E.
     rewrite ir_empty_eq. exact E.
   Qed.
 
   Lemma ref_cat_single fwd c : ref fwd (NCat [c]) c.
   Proof.
     split; [|apply rstep_nol1; reflexivity].
-    apply (rres_fle ix unicode utf16 h fwd _ _ 0%nat). intros [|f] x r E; [discriminate|]. rewrite Nat.add_0_r. rewrite ir_cat_eq in E.
+    apply (rres_fle ix unicode utf16 h okp fwd _ _ 0%nat). intros [|f] x r E; [discriminate|]. rewrite Nat.add_0_r. rewrite ir_cat_eq in E.
     cbn [cat_results] in E. rewrite obindm_single in E.
     destruct (IR f c fwd x) as [ys|] eqn:Ec; [|discriminate]. inversion E; subst.
     eapply ir_fuel_mono; [|exact Ec]. lia.
+  Qed.
+
+  Lemma al_flat : forall l, Forall al l -> Forall al (flat_map spl l).
+  Proof.
+    induction 1 as [|c l Hc Hl IH]; [constructor|]. cbn [flat_map]. apply Forall_app. split; [|exact IH].
+    destruct c; try (constructor; [exact Hc|constructor]). apply al_cat. exact Hc.
   Qed.
 
   Lemma decat_sound lb n a : decat lb n = Ok a -> PRel lb n (act_node a n).
   Proof.
     intros E. destruct n; try (inversion E; subst; apply PRel_refl).
     destruct l as [|x [|y t]]; cbn [decat] in E.
-    - inversion E; subst. intro Hq. split; [apply ref_cat_nil|split; reflexivity].
-    - inversion E; subst. intro Hq. cbn [act_node]. split; [apply ref_cat_single|].
+    - inversion E; subst. intros Hq Ha. split; [apply ref_cat_nil|]. split; [reflexivity|]. split; [apply al_empty|reflexivity].
+    - inversion E; subst. intros Hq Ha. cbn [act_node]. split; [apply ref_cat_single|].
       cbn [qok forallb] in Hq. rewrite andb_true_r in Hq. split; [exact Hq|].
+      split; [apply al_cat in Ha; inversion Ha; assumption|].
       cbn [ng map]. rewrite list_sum_cons. cbn [list_sum fold_right]. lia.
     - destruct (existsb is_cat (x :: y :: t)); inversion E; subst; [|apply PRel_refl].
-      intro Hq. cbn [act_node]. split; [apply (ref_flatten (negb lb) (x :: y :: t))|].
-      split; [apply (qok_flat (x :: y :: t)); exact Hq|apply (ng_flat (x :: y :: t))].
+      intros Hq Ha. cbn [act_node]. split; [apply (ref_flatten (negb lb) (x :: y :: t))|].
+      split; [apply (qok_flat (x :: y :: t)); exact Hq|].
+      split; [apply al_cat; apply (al_flat (x :: y :: t)); apply al_cat; exact Ha|apply (ng_flat (x :: y :: t))].
   Qed.
 
   Theorem decat_pass_sound fuel n n' : run_to_fixpoint decat fuel n = Ok n' -> PRel false n n'.
